@@ -19,6 +19,7 @@ impl Scenario for Sessions {
             let spec = SPECS[proto];
             let mut real = AnyState::initial(proto);
             let mut ss = spec.init;
+            let mut hist: Vec<pallas_network2::behavior::AnyMessage> = vec![];
             let len = if cx.ch.chance("long", 1, 8) { cx.ch.range("len.long", 9, 40) } else { cx.ch.range("len", 1, 8) };
             cx.tr.ev("session", &[proto as u64, len]);
             'session: for _ in 0..len {
@@ -26,9 +27,16 @@ impl Scenario for Sessions {
                     // can only follow an already reported (known) divergence
                     break 'session;
                 }
-                // single-step sweep: every message variant from this state
-                for k in 0..spec.msgs.len() as u8 {
-                    let m = gen_msg(proto, k, &mut cx.ch);
+                // single-step sweep: every message variant from this state with fresh field values, then the
+                // last messages of this session once more (same cookie / same body / same peers as the state
+                // may be holding: acceptance must not depend on a payload matching the state's payload)
+                let fresh: Vec<_> = (0..spec.msgs.len() as u8).map(|k| gen_msg(proto, k, &mut cx.ch)).collect();
+                let echoes: Vec<_> = hist.iter().rev().take(3).cloned().collect();
+                if !echoes.is_empty() {
+                    cx.st.inc("probe.echoed_messages_offered");
+                }
+                for m in fresh.into_iter().chain(echoes.into_iter()) {
+                    let k = kind(&m).1;
                     let want = spec.next(ss, k);
                     let got = real.apply(&m).expect("same protocol");
                     cx.st.state(((proto as u64) << 16) | ((ss as u64) << 8) | k as u64);
@@ -75,6 +83,7 @@ impl Scenario for Sessions {
                     (Some(n), Ok(new)) => {
                         ss = n;
                         real = new;
+                        hist.push(m);
                     }
                     (None, Err(_)) => {
                         if byz {
@@ -103,7 +112,7 @@ pub fn def() -> CheckDef {
             "spec::proto tables (DESIGN.md Appendix A) transcribe the Ouroboros network specification; the two Leios automata come from the module documentation only",
             "value-level side conditions (cookie match, ack counts, list lengths) are don't-care",
         ],
-        required: vec!["probe.accepted_as_specified", "probe.rejected_as_specified", "fault.byzantine_message_rejected"],
+        required: vec!["probe.accepted_as_specified", "probe.rejected_as_specified", "fault.byzantine_message_rejected", "probe.echoed_messages_offered"],
         env_nondeterminism: "none inside State::apply; the histories are those of a simulated peer pair (message order and Byzantine moves are seeded choices)",
     }
 }
